@@ -397,6 +397,7 @@ func (p *specParser) parsePrimary() SExpr {
 
 type Clause struct {
 	Case  string // asserts@<case text>: only at returns inside that switch arm
+	Strict bool  // asserts!: returns that do not pass the definition of the clause's locals must return an error
 	Label string
 	Src   string
 	Expr  SExpr
@@ -484,6 +485,7 @@ type Contracts struct {
 	MapInv   map[string]bool // "pkg|map type": values are never nil
 	FieldFrame  map[string][]string // "pkg.Type[.field]": the only functions that may store to such fields of objects they did not allocate
 	GlobalFrame map[string][]string // package: the only functions that may store to its package-level variables
+	NoCaptureWrite map[string]bool // closures that must not assign captured variables
 	MapFrame map[string][]string // "pkg|map type": the only functions that may write maps of that type they did not allocate
 }
 
@@ -547,6 +549,12 @@ func (c *Contracts) loadFile(path string, pkgName string) error {
 		word, rest := t, ""
 		if i := strings.IndexAny(t, " \t"); i >= 0 {
 			word, rest = t[:i], strings.TrimSpace(t[i+1:])
+		}
+		strictAsserts := false
+		if strings.HasPrefix(word, "asserts!") {
+			// asserts! : at a return where a local of the clause does not exist, the return must be an error return
+			strictAsserts = true
+			word = "asserts" + word[len("asserts!"):]
 		}
 		if strings.HasPrefix(word, "asserts@") {
 			rest = word[len("asserts"):] + " " + rest
@@ -659,6 +667,7 @@ func (c *Contracts) loadFile(path string, pkgName string) error {
 				return err
 			}
 			cl.Case = caseText
+			cl.Strict = strictAsserts
 			switch word {
 			case "requires":
 				cur.Requires = append(cur.Requires, cl)
@@ -831,6 +840,14 @@ func (c *Contracts) loadFile(path string, pkgName string) error {
 				c.GlobalFrame = map[string][]string{}
 			}
 			c.GlobalFrame[pkgName] = fs
+			cur = nil
+		case "nocapturewrite":
+			// nocapturewrite <closure key>: a closure that outlives the call that created it (a registered callback):
+			// it must not assign to a variable it captured (state shared between its invocations)
+			if c.NoCaptureWrite == nil {
+				c.NoCaptureWrite = map[string]bool{}
+			}
+			c.NoCaptureWrite[strings.TrimSpace(rest)] = true
 			cur = nil
 		case "mapframe":
 			// mapframe <map type> only <func key>, <func key>...: every other function writes such a map only if it
